@@ -381,4 +381,7 @@ def run(ctx):
         ctx.floor("functions re-rendering a def header", n_h, 1)
 
     ctx.section(_sec_header)
+    from . import c10 as _c10_state
+
+    ctx.section(_c10_state.state_slice, ctx, 'C07.state', ['cdd.compound.doctrans.doctrans'], 5)
 
